@@ -130,6 +130,9 @@ class Work:
         return p
 
     def cleanup(self):
+        if os.environ.get("VERIF_KEEP"):
+            log("keeping scratch directory " + self.dir)
+            return
         shutil.rmtree(self.dir, ignore_errors=True)
 
 
